@@ -23,7 +23,9 @@ import (
 
 func init() { core.Register("serverlist", serverlistSuite) }
 
-func asEqual(a, b server.AuthorizedServer) bool { return asCanon([]server.AuthorizedServer{a}) == asCanon([]server.AuthorizedServer{b}) }
+func asEqual(a, b server.AuthorizedServer) bool {
+	return asCanon([]server.AuthorizedServer{a}) == asCanon([]server.AuthorizedServer{b})
+}
 
 func serverlistSuite(seed uint64, tier, outDir string) (*core.Result, error) {
 	res := core.NewResult("serverlist", seed, tier)
